@@ -650,7 +650,14 @@ fn gen_micros(g: &mut Rng, boundary: &[i64]) -> i64 {
     }
 }
 fn gen_wall(g: &mut Rng, boundary: &[i64]) -> i128 {
-    let n: i128 = match g.below(8) {
+    let n: i128 = match g.below(9) {
+        8 => {
+            // around k * 2^64 microseconds from the epoch (about 584 542 years): a narrowing cast to
+            // 64 bits wraps exactly here
+            let k = 1 + g.below(3) as i128;
+            let v = k * (1i128 << 64) * 1000 + g.range(-3_000_000, 3_000_000) as i128;
+            if g.bool() { v } else { -v }
+        }
         0 => (rand_u128(g) % (2 * WALL_LIM_NS as u128 + 1)) as i128 - WALL_LIM_NS,
         1 | 2 => {
             let v = (log_uniform(g, 93) as i128).min(WALL_LIM_NS);
